@@ -4,9 +4,12 @@ import (
 	"bytes"
 	"context"
 	"fmt"
+	"os"
 	"strconv"
 	"strings"
 	"sync"
+	"sync/atomic"
+	"time"
 	"unicode/utf8"
 
 	"github.com/robfig/soy/soyjs"
@@ -59,20 +62,92 @@ func GenerateJS(src string) (js string, err error) {
 }
 
 type genResult struct {
-	ok  bool
-	wf  bool
-	out string
-	err string
+	ok   bool
+	wf   bool
+	out  string
+	err  string
+	skip bool // a failure that could not be confirmed: not judged
 }
 
 // runGenerated runs the generated JavaScript of {$x|chain} on every string.
 func runGenerated(pool *jsrun.Pool, chainText string, escapeOn bool, strs []string) ([]genResult, string, error) {
+	out, js, err := runGeneratedT(pool, chainText, escapeOn, strs, firstTimeout())
+	if err != nil && !strings.HasPrefix(err.Error(), "compile:") && !strings.HasPrefix(err.Error(), "soyjs.Write") && !strings.HasPrefix(err.Error(), "PANIC") {
+		// node trouble (watchdog, died, garbled line, load failure): once more in a fresh process
+		fresh, perr := jsrun.NewPool(context.Background(), 1)
+		if perr != nil {
+			return nil, js, perr
+		}
+		defer fresh.Close()
+		out, js, err = runGeneratedT(fresh, chainText, escapeOn, strs, 60*time.Second)
+		if err == nil {
+			atomic.AddInt64(&jsRetriedOK, 1)
+		}
+	}
+	return out, js, err
+}
+
+// firstTimeout is the per-call vm timeout of the first attempt (10 s;
+// VERIF_C16_JS_TIMEOUT_MS overrides it, to exercise the confirmation path).
+func firstTimeout() time.Duration {
+	if ms, err := strconv.Atoi(os.Getenv("VERIF_C16_JS_TIMEOUT_MS")); err == nil && ms > 0 {
+		return time.Duration(ms) * time.Millisecond
+	}
+	return 10 * time.Second
+}
+
+// jsRetriedOK counts JS-side failures that did not reproduce in a fresh node
+// process (machine load: vm timeout, killed child, truncated line).
+var jsRetriedOK int64
+
+// confirmGenerated re-runs ONE case of generated JavaScript in a fresh node
+// process with a generous timeout.  Only a failure that reproduces there is a
+// verdict; toolOK=false means node could not be run at all.
+func confirmGenerated(chainText string, escapeOn bool, s string) (r genResult, toolOK bool) {
+	fresh, err := jsrun.NewPool(context.Background(), 1)
+	if err != nil {
+		return genResult{}, false
+	}
+	defer fresh.Close()
+	out, _, err := runGeneratedT(fresh, chainText, escapeOn, []string{s}, 60*time.Second)
+	if err != nil || len(out) != 1 {
+		return genResult{}, false
+	}
+	return out[0], true
+}
+
+// confirmFailures re-runs every failed call of one chain; results that do not
+// reproduce are replaced by the fresh result.  After three reproduced failures
+// the rest of the chain's failures are taken as they are.
+func confirmFailures(ctx *core.Ctx, chainText string, escapeOn bool, strs []string, res []genResult) {
+	reproduced := 0
+	for i := range res {
+		if res[i].ok || reproduced >= 3 {
+			continue
+		}
+		r, ok := confirmGenerated(chainText, escapeOn, strs[i])
+		if !ok {
+			ctx.ToolError("JS: cannot re-run {$x%s} in a fresh node process to confirm a failure (%s)", chainText, res[i].err)
+			res[i] = genResult{ok: true, wf: true, out: "", err: "unconfirmed"}
+			res[i].skip = true
+			continue
+		}
+		if r.ok {
+			atomic.AddInt64(&jsRetriedOK, 1)
+		} else {
+			reproduced++
+		}
+		res[i] = r
+	}
+}
+
+func runGeneratedT(pool *jsrun.Pool, chainText string, escapeOn bool, strs []string, per time.Duration) ([]genResult, string, error) {
 	src := JSTemplate(chainText, escapeOn)
 	js, err := GenerateJS(src)
 	if err != nil {
 		return nil, "", err
 	}
-	req := jsrun.Request{Sources: []jsrun.Source{{Name: "t.soy.js", Code: js}}}
+	req := jsrun.Request{Sources: []jsrun.Source{{Name: "t.soy.js", Code: js}}, Timeout: per}
 	for _, s := range strs {
 		req.Calls = append(req.Calls, jsrun.Call{Fn: "t.m", Data: map[string]interface{}{"x": s}})
 	}
@@ -139,9 +214,13 @@ func JSCounterparts(ctx *core.Ctx, e *Export) {
 			ct := ChainText(chains[ci])
 			off, js, err := runGenerated(pool, ct, false, strs)
 			if err == nil {
+				confirmFailures(ctx, ct, false, strs, off)
 				results[ci].off, results[ci].js = off, js
 				if len(chains[ci]) == 1 {
 					results[ci].on, _, err = runGenerated(pool, ct, true, strs)
+					if err == nil {
+						confirmFailures(ctx, ct, true, strs, results[ci].on)
+					}
 				}
 			}
 			if err != nil {
@@ -163,6 +242,8 @@ func JSCounterparts(ctx *core.Ctx, e *Export) {
 		plainOn, _, err = runGenerated(pool, "", true, strs)
 		if err != nil {
 			ctx.ToolError("generated JS for {$x}: %v", err)
+		} else {
+			confirmFailures(ctx, "", true, strs, plainOn)
 		}
 	}()
 	wg.Wait()
@@ -176,6 +257,9 @@ func JSCounterparts(ctx *core.Ctx, e *Export) {
 	var lines []traceLine
 	var n int64
 	judge := func(family string, chain []Dir, s, in string, inVal map[string]interface{}, r genResult, js string) {
+		if r.skip {
+			return
+		}
 		n++
 		if s != "" {
 			ctx.Distinct(family + "|" + ChainText(chain) + "|" + s)
@@ -222,7 +306,7 @@ func JSCounterparts(ctx *core.Ctx, e *Export) {
 				lines = append(lines, traceLine{ch, core.VStr(s), false, off[si].out, ""})
 			}
 			// autoescaping on: a cancelling directive writes the same bytes; truncate's result is escaped
-			if on := results[ci].on; on != nil && off[si].ok && off[si].wf {
+			if on := results[ci].on; on != nil && off[si].ok && off[si].wf && !on[si].skip && !off[si].skip {
 				n++
 				fault := ""
 				switch {
@@ -252,6 +336,9 @@ func JSCounterparts(ctx *core.Ctx, e *Export) {
 		}
 		n++
 		r := plainOn[si]
+		if r.skip {
+			continue
+		}
 		fault := ""
 		if !r.ok {
 			fault = "error"
@@ -326,9 +413,16 @@ func jsLibrary(ctx *core.Ctx, strs []string) {
 	}
 	res, _, err := RunNode(jobs)
 	if err != nil {
+		res, _, err = RunNode(jobs) // once more in a fresh process
+		if err == nil {
+			atomic.AddInt64(&jsRetriedOK, 1)
+		}
+	}
+	if err != nil {
 		ctx.ToolError("JS library: %v", err)
 		return
 	}
+	confirmJobs(ctx, jobs, res)
 	escaped := map[string]string{}
 	for i, c := range cases {
 		if c.d.Name == "escapeHtml" && res[i].OK {
@@ -375,6 +469,31 @@ func jsLibrary(ctx *core.Ctx, strs []string) {
 		}
 	}
 	ctx.Extra["js_library_calls"] = len(cases)
+}
+
+// confirmJobs re-runs every failed job of a c16_driver.js batch alone in a
+// fresh node process; a failure that does not reproduce is replaced.
+func confirmJobs(ctx *core.Ctx, jobs []JSJob, res []JSResult) {
+	reproduced := 0
+	for i := range res {
+		if res[i].OK || reproduced >= 5 {
+			continue
+		}
+		r, _, err := RunNode([]JSJob{jobs[i]})
+		if err != nil {
+			r, _, err = RunNode([]JSJob{jobs[i]})
+		}
+		if err != nil || len(r) != 1 {
+			ctx.ToolError("JS: cannot re-run a failed %s job in a fresh node process: %v", jobs[i].Op, err)
+			return
+		}
+		if r[0].OK {
+			atomic.AddInt64(&jsRetriedOK, 1)
+		} else {
+			reproduced++
+		}
+		res[i] = r[0]
+	}
 }
 
 // jsReplay re-runs a saved JS case.
